@@ -284,25 +284,7 @@ func runC04(c *eng.Ctx) {
 			c.Check(g, "replica offset only grows", c.Pos(st), "stored only on offset > r.offset", "a replica's latest offset can move backwards (path "+w.String()+")")
 		}
 	}
-	if fn := c.Fn("server.(*partition).AddToISR"); fn != nil {
-		ok := false
-		eng.Instrs(fn, func(in ssa.Instruction) {
-			if mu, ok2 := in.(*ssa.MapUpdate); ok2 {
-				if al, ok3 := mu.Value.(*ssa.Alloc); ok3 {
-					for _, r := range *al.Referrers() {
-						if fa, ok4 := r.(*ssa.FieldAddr); ok4 && eng.FieldNameOf(fa) == "offset" {
-							for _, rr := range *fa.Referrers() {
-								if st, ok5 := rr.(*ssa.Store); ok5 && eng.IntConst(-1)(st.Val) {
-									ok = true
-								}
-							}
-						}
-					}
-				}
-			}
-		})
-		c.Check(ok, "added replica starts at offset -1", p.Pos(fn.Pos()), "p.isr[rep] = &replica{offset: -1}", "a replica added to the ISR does not start at offset -1: it could be counted as having data it does not have")
-	}
+	ruleAddedReplicaUnconfirmed(c)
 	if fn := c.Fn("server.(*partition).RemoveFromISR"); fn != nil {
 		n := 0
 		eng.Instrs(fn, func(in ssa.Instruction) {
@@ -472,4 +454,29 @@ func nackSitesIn(c *eng.Ctx, fn *ssa.Function, errName string) []ssa.Instruction
 		}
 	})
 	return out
+}
+
+// ruleAddedReplicaUnconfirmed (part of R04.5, shared with C02): a replica that re-enters the ISR counts as holding nothing
+// until its next replication request says otherwise.
+func ruleAddedReplicaUnconfirmed(c *eng.Ctx) {
+	p := c.P
+	if fn := c.Fn("server.(*partition).AddToISR"); fn != nil {
+		ok := false
+		eng.Instrs(fn, func(in ssa.Instruction) {
+			if mu, ok2 := in.(*ssa.MapUpdate); ok2 {
+				if al, ok3 := mu.Value.(*ssa.Alloc); ok3 {
+					for _, r := range *al.Referrers() {
+						if fa, ok4 := r.(*ssa.FieldAddr); ok4 && eng.FieldNameOf(fa) == "offset" {
+							for _, rr := range *fa.Referrers() {
+								if st, ok5 := rr.(*ssa.Store); ok5 && eng.IntConst(-1)(st.Val) {
+									ok = true
+								}
+							}
+						}
+					}
+				}
+			}
+		})
+		c.Check(ok, "added replica starts at offset -1", p.Pos(fn.Pos()), "p.isr[rep] = &replica{offset: -1}", "a replica added to the ISR does not start at offset -1: it could be counted as having data it does not have")
+	}
 }
